@@ -121,6 +121,12 @@ def draw_mask(d, K, F, T):
         m = np.round(m * (1 if kind == 'alphabet' else 3)).astype(dt)
     else:
         m = m.astype(dt)
+        # "all real masks": also large and small magnitudes (a power spectrum
+        # instead of a posterior) - the order of the classes does not depend
+        # on the unit
+        scale = [1.0, 1.0, 1e3, 1e6, 1e9, 1e-6][int(d.aux(142).integers(0, 6))]
+        if scale != 1.0 and (dt == np.float64 or scale in (1e3, 1e-6)):
+            m = (m * dt(scale)).astype(dt)
     # the same values behind another memory layout (as a posterior (F, K, T)
     # transposed to (K, F, T) would be)
     m = gen.vary(d, m, 141)
@@ -194,6 +200,10 @@ def aligners(d, ctx):
         algo = d.choice(['greedy', 'optimal'])
         aligner = pa.OraclePermutationAlignment(similarity_metric=metric, algorithm=algo)
         ref, _, _ = draw_mask(d, K, F, T)
+        if np.issubdtype(mask.dtype, np.integer) and not np.issubdtype(ref.dtype, np.integer):
+            # a scaled float reference does not fit an integer dtype
+            ref = np.asarray(ref, dtype=np.float64)
+            ref = np.clip(np.round(ref / max(float(np.max(np.abs(ref))), 1e-30) * 3), -3, 3)
         args = (ref.astype(mask.dtype),)
         desc = dict(metric=metric, algorithm=algo)
     ctx.describe(K=K, F=F, T=T, mask=mkind, dtype=dt, aligner=which, config=desc)
